@@ -8,6 +8,7 @@ import (
 	"bytes"
 	"fmt"
 	"go/ast"
+	"go/constant"
 	"go/format"
 	"go/importer"
 	"go/parser"
@@ -518,7 +519,12 @@ func (rw *rewriter) call(c *ast.CallExpr) {
 	}
 	idx := len(c.Args) - 1 // capacity if given, else length
 	if tv, ok := rw.info.Types[c.Args[idx]]; ok && tv.Value != nil {
-		return // constant
+		// a constant: small fixed buffers are nobody's concern, but a fixed preallocation of
+		// kilobytes made on every turn of a loop is (64 KiB per turn of a runaway loop cost
+		// minutes before the step budget ended it)
+		if v, exact := constant.Int64Val(constant.ToInt(tv.Value)); !exact || v*size < 4096 {
+			return
+		}
 	}
 	// already wrapped?
 	if ce, ok := c.Args[idx].(*ast.CallExpr); ok {
